@@ -21,7 +21,10 @@ from symx import core, loader  # noqa: E402
 from symx.core import Ctx, Sym, SymBool, Cond, explore  # noqa: E402
 
 REPLAY_REQUEST = None  # set by harness.run --replay
-EVID = os.path.join(VERIF, "evidence")
+# Registered commands always use /repo and /verif/evidence; the two overrides exist for the seeded-change tooling
+# (bin/seedrun.sh), which checks a patched scratch worktree without touching /repo or the committed evidence.
+REPO = os.environ.get("VERIF_REPO", "/repo")
+EVID = os.environ.get("VERIF_EVIDENCE_DIR") or os.path.join(VERIF, "evidence")
 REPLAY = os.path.join(EVID, "replay")
 
 
@@ -409,7 +412,7 @@ def run_crosshair(name, file, func, timeout_s=60, per_path_timeout=None, bounds=
     if line is None:
         return dict(name=name, engine="crosshair", harness_errors=["no function %s in %s" % (func, file)], violations=[],
                     inconclusive=[], claims={}, n_claims=0, vacuous=True, wall_s=0, paths=0, queries=0, solver_s=0)
-    env = dict(os.environ, PYTHONPATH=VERIF + ":/repo", PYTHONHASHSEED="0")
+    env = dict(os.environ, PYTHONPATH=VERIF + ":" + REPO, PYTHONHASHSEED="0")
     cmd = [sys.executable, "-m", "crosshair", "check", "--report_all", "--per_condition_timeout", str(timeout_s),
            "--analysis_kind", "PEP316"]
     if per_path_timeout:
@@ -471,10 +474,10 @@ def _replay_crosshair(path, call):
             "    ok = any(type(ex).__name__ in l for l in raises)\n"
             "    print('REPLAY', 'PASS' if ok else 'FAIL', 'raised', type(ex).__name__, ex); sys.exit(0)\n"
             "ok = all(eval(p) for p in post)\n"
-            "print('REPLAY', 'PASS' if ok else 'FAIL', 'returned', repr(_)[:200])\n") % (os.path.dirname(path), "/repo", mod, mod, call)
+            "print('REPLAY', 'PASS' if ok else 'FAIL', 'returned', repr(_)[:200])\n") % (os.path.dirname(path), REPO, mod, mod, call)
     try:
         pr = subprocess.run([sys.executable, "-c", code], capture_output=True, text=True, timeout=120,
-                            env=dict(os.environ, PYTHONPATH=VERIF + ":/repo"))
+                            env=dict(os.environ, PYTHONPATH=VERIF + ":" + REPO))
     except subprocess.TimeoutExpired:
         return False, "replay timed out"
     out = pr.stdout + pr.stderr
